@@ -38,3 +38,30 @@ def run_probes(prop, acc, runfn, tries=3):
             if hit:
                 acc.known_hit(d["id"], brief_case(case))
                 break
+
+
+FIXED_DEMOS = {"C18": ("F13", "F14"), "C14": ("F16",), "C15": ("F17", "F18")}
+
+
+def run_fixed_demos(prop, acc):
+    """Deterministic witnesses of repaired defects (probes/F*_demo.py) are re-run against the tree under test: a fixed
+    entry suppresses nothing - if the defect returns, the witness exits 1 and that is a violation."""
+    import subprocess
+    import sys
+    from . import load as _load
+    for fid in FIXED_DEMOS.get(prop, ()):
+        demo = os.path.join(VERIF, "probes", "%s_demo.py" % fid)
+        try:
+            r = subprocess.run([sys.executable, "-B", demo, _load.REPO], stdout=subprocess.PIPE, stderr=subprocess.STDOUT,
+                               timeout=180)
+            rc, out = r.returncode, r.stdout.decode("utf8", "replace")[-400:]
+        except subprocess.TimeoutExpired:
+            rc, out = "timeout", ""
+        acc.evaluations += 1
+        acc.count("fixed_defect_witnesses_rerun")
+        acc.add("fixed_defect_witnesses", fid)
+        if rc == 1:
+            acc.violation("fixed_defect_returned_" + fid, [out.strip().splitlines()[-1] if out.strip() else ""],
+                          {"family": "WITNESS", "fixed": fid})
+        elif rc != 0:
+            acc.inconclusive.append("witness %s did not run to a verdict (rc=%s): %s" % (fid, rc, out[-200:]))
